@@ -567,7 +567,7 @@ struct Peer {
     void misuse() { evs.push_back("misuse"); }
 
     void request(int script, int m) {
-        if (dead || idAllocOf(*rpc) == INT_MAX) { misuse(); return; }    // null proto_ / ++id_alloc_ would overflow: never executed
+        if (dead) { misuse(); return; }    // null proto_: never executed
         int tag = n_tag++;
         Peer *self = this; Pad pad = {{0, 0, 0}};
         rpc->request("m" + std::to_string(m), Json::array({1}), [self, tag, script, pad](int ec, const Json &) {
@@ -632,6 +632,20 @@ struct Peer {
         if (c == "req" && n == 3 && natLe(w[o + 1], 99, a) && natLe(w[o + 2], 7, b)) { request(a, b); return true; }
         if (c == "note" && n == 2 && natLe(w[o + 1], 7, a)) { notify(a); return true; }
         if (c == "rsp" && n == 3 && jsonInt(w[o + 1]) && i32(w[o + 2], b)) { feed(rspFrame(kind, w[o + 1], b)); return true; }
+        if (c == "rspb" && n == 3 && !keep_out && i32(w[o + 2], b)) {       // one frame: a batch array of responses
+            std::vector<std::string> ids; std::string t; std::istringstream is(w[o + 1]);
+            if (w[o + 1].empty() || w[o + 1].back() == ',') return false;
+            while (std::getline(is, t, ',')) { if (!jsonInt(t)) return false; ids.push_back(t); }
+            if (ids.empty() || ids.size() > 8) return false;
+            std::string text = "[";
+            for (size_t i = 0; i < ids.size(); ++i) {
+                if (i) text += ",";
+                text += b == 0 ? "{\"id\":" + ids[i] + ",\"jsonrpc\":\"2.0\",\"result\":7}"
+                               : "{\"error\":{\"code\":" + std::to_string(b) + "},\"id\":" + ids[i] + ",\"jsonrpc\":\"2.0\"}";
+            }
+            feed(frameOf(kind, text + "]"));
+            return true;
+        }
         if (c == "inreq" && n == 3 && i32(w[o + 1], a) && natLe(w[o + 2], 7, b)) { feed(reqFrame(kind, a, b)); return true; }
         if (c == "srsp" && n == 3 && i32(w[o + 1], a) && i32(w[o + 2], b)) { respond(a, b); return true; }
         if (c == "svc" && n == 3 && natLe(w[o + 1], 7, a)) {
@@ -806,6 +820,23 @@ static void runCase(const std::vector<std::string> &lines) {
         auto w = vh::words(lines[i]);
         if (w.empty()) continue;
         uint64_t n = 0;
+        int64_t tn = 0;
+        if (fresh && w[0] == "rpc" && w.size() == 3 && (w[1] == "H" || w[1] == "R" || w[1] == "P") &&
+            vh::to_i64(w[2], tn) && tn >= -512 && tn <= 0) {
+            // initialize(proto, timeout_sec < 1) must refuse; if it claims success the case goes on as an Rpc case
+            Kind k; k.k = w[1][0]; k.magic = 0x3e5a;
+            bool ok;
+            {
+                tbox::event::Loop *loop = tbox::event::Loop::New();
+                { std::shared_ptr<Proto> proto = newProto(k); Rpc rpc(loop); ok = rpc.initialize(proto.get(), (int)tn); if (ok) rpc.cleanup(); }
+                delete loop;
+            }
+            if (!ok) { say("P rpc init=0"); continue; }
+            std::vector<std::string> rest;
+            for (size_t j = i + 1; j < lines.size(); ++j) if (!vh::words(lines[j]).empty()) rest.push_back(lines[j]);
+            runRpcCase(k, (int)tn, rest);
+            return;
+        }
         if (fresh && w[0] == "rpc" && w.size() == 3 && (w[1] == "H" || w[1] == "R" || w[1] == "P") &&
             vh::to_u64(w[2], n) && n >= 1 && n <= 512) {
             Kind k; k.k = w[1][0]; k.magic = 0x3e5a;
